@@ -1,7 +1,7 @@
 /-
 C07 — fee calculator, standard witness scripts and the gas the VM charges for them, as written now.
 
-  pkg/core/fee/calculate.go:15-49            Calculate, calculateMultisig
+  pkg/core/fee/calculate.go:14-49            Calculate, pushIntSize (after fix c9cbbdc)
   pkg/core/fee/opcode.go                     Opcode / coefficients  (table regenerated: Generated/FeeConsts.lean)
   pkg/smartcontract/contract.go:15-39        CreateMultiSigRedeemScript
   pkg/crypto/keys/publickey.go:345-372       GetVerificationScript (signature contract)
@@ -157,11 +157,17 @@ def isSignatureContract (script : Bytes) : Bool :=
 
 /-! ### fee.Calculate -/
 
-/-- `calculateMultisig(base, n)` (calculate.go:42-49): n PUSHDATA1 plus the opcode `emit.Int(n)` starts with. -/
+/-- the rule before fix c9cbbdc (kept for the regression examples of Props/C07): n PUSHDATA1 plus the opcode
+`emit.Int(n)` starts with, whatever the script really contains. -/
 def calculateMultisig (base n : Nat) : Nat :=
   coeff opPUSHDATA1 * base * n + coeff ((emitInt n).headD 0).toNat * base
 
-/-- `fee.Calculate(base, script)` (calculate.go:15-40): (network fee in datoshi, size of the witness). -/
+/-- `pushIntSize` (calculate.go:43-49): size of an integer push instruction, opcode and operand. -/
+def pushIntSize (op : Nat) : Nat := if op ≤ opPUSHINT256 then 1 + 2 ^ op else 1
+
+/-- `fee.Calculate(base, script)` (calculate.go:14-40, after fix c9cbbdc): (network fee in datoshi, size of the
+witness). For a multisig script the two integer pushes are priced as the instructions the script really has:
+`mOp = script[0]`, `nOp` = the byte after the m-push and the `2 + len(key)` bytes of every key push. -/
 def calculate (base : Nat) (script : Bytes) : Nat × Nat :=
   if isSignatureContract script then
     (picoToDatoshi ((coeff opPUSHDATA1 + coeff opPUSHDATA1) * base + base * ecdsaVerifyPrice),
@@ -170,8 +176,20 @@ def calculate (base : Nat) (script : Bytes) : Nat × Nat :=
     | some (m, pubs) =>
       let n := pubs.length
       let sizeInv := 66 * m
-      (picoToDatoshi (calculateMultisig base m + calculateMultisig base n + base * ecdsaVerifyPrice * n),
+      let mOp := (script.headD 0).toNat
+      let nOff := pushIntSize mOp + (pubs.map fun p => 2 + p.length).sum
+      let nOp := (script.getD nOff 0).toNat
+      (picoToDatoshi (coeff opPUSHDATA1 * base * (m + n) + (coeff mOp + coeff nOp) * base + base * ecdsaVerifyPrice * n),
        varUintSize sizeInv + sizeInv + (varUintSize script.length + script.length))
+    | none => (0, 0)
+
+/-- `fee.Calculate` before fix c9cbbdc (regression examples only). -/
+def calculateOld (base : Nat) (script : Bytes) : Nat × Nat :=
+  if isSignatureContract script then calculate base script
+  else match parseMultiSig script with
+    | some (m, pubs) =>
+      (picoToDatoshi (calculateMultisig base m + calculateMultisig base pubs.length + base * ecdsaVerifyPrice * pubs.length),
+       (calculate base script).2)
     | none => (0, 0)
 
 /-- `Witness.EncodeBinary` (witness.go:33-36): two var-length byte strings. -/
